@@ -6,7 +6,8 @@ With --diff N prints, for flagged case N of file F (--file), the model's trace
 next to the observed one (first differing run)."""
 import json, os, re, subprocess, sys, concurrent.futures
 
-ROOT = "/verif"
+ROOT = os.path.abspath(os.path.join(os.path.dirname(os.path.abspath(__file__)), "..", "..", ".."))
+TMP = "/tmp/pipe" if ROOT == "/verif" else "/tmp/pipe_" + os.path.basename(ROOT)
 def sh(cmd, cwd=None, timeout=3000):
     p = subprocess.run(cmd, cwd=cwd, stdout=subprocess.PIPE, stderr=subprocess.STDOUT, text=True, timeout=timeout)
     return p.returncode, p.stdout
@@ -24,7 +25,7 @@ def main():
     prop = args[0]
     seed = args[1] if len(args) > 1 else "1"
     tier = args[2] if len(args) > 2 else "quick"
-    out = "/tmp/pipe/" + prop
+    out = TMP + "/" + prop
     binary = ROOT + "/harness/bin/corr_" + prop
     env = dict(os.environ, GOFLAGS="-mod=mod", GOPROXY="off", GOSUMDB="off", GOTOOLCHAIN="local", CGO_ENABLED="0")
     repo = [a.split("=", 1)[1] for a in sys.argv if a.startswith("--repo=")]
@@ -32,11 +33,11 @@ def main():
         # scratch-tree mode, as bin/check does with VERIF_REPO: separate go.mod, binary and output directory
         tag = str(abs(hash(repo[0])) % 100000)
         out += "_alt"
-        mod = "/tmp/pipe/alt_%s.mod" % tag
-        os.makedirs("/tmp/pipe", exist_ok=True)
+        mod = TMP + "/alt_%s.mod" % tag
+        os.makedirs(TMP, exist_ok=True)
         open(mod, "w").write(open(ROOT + "/harness/go.mod").read().replace("=> /repo", "=> " + repo[0]))
-        subprocess.run(["cp", repo[0] + "/go.sum", "/tmp/pipe/alt_%s.sum" % tag])
-        binary = "/tmp/pipe/corr_%s_alt" % prop
+        subprocess.run(["cp", repo[0] + "/go.sum", TMP + "/alt_%s.sum" % tag])
+        binary = TMP + "/corr_%s_alt" % prop
         p = subprocess.run(["go", "build", "-modfile", mod, "-o", binary, "./cmd/" + prop], cwd=ROOT + "/harness", env=env,
                            stdout=subprocess.PIPE, stderr=subprocess.STDOUT, text=True)
         if p.returncode != 0:
